@@ -54,7 +54,20 @@ pub fn worker_main(full: bool) {
         };
         let mut res: Vec<Value> = Vec::with_capacity(batch.len());
         for src in &batch {
-            let o = build(src);
+            let o = if let Some(spec) = src.strip_prefix("\u{2}FILE:") {
+                // build_file request: {"main": path, "paths": [dir, ...]}
+                match serde_json::from_str::<Value>(spec) {
+                    Ok(v) => {
+                        let main = std::path::PathBuf::from(v.get("main").and_then(|x| x.as_str()).unwrap_or(""));
+                        let paths: std::collections::BTreeSet<std::path::PathBuf> =
+                            v.get("paths").and_then(|x| x.as_array()).map(|a| a.iter().filter_map(|p| p.as_str().map(std::path::PathBuf::from)).collect()).unwrap_or_default();
+                        crate::run::build_file(main, paths)
+                    }
+                    Err(e) => Outcome::Err(format!("bad FILE request: {}", e)),
+                }
+            } else {
+                build(src)
+            };
             res.push(match o {
                 Outcome::Ok(b) => {
                     if full {
